@@ -462,7 +462,8 @@ def translate_conditional_distribution():
 NORMAL_SAMPLES_SRC = [
     'if conditions is None:\n    covariance = self.correlation\n    columns = self.columns\n    means = np.zeros(len(columns))\n'
     'else:\n    conditions = pd.Series(conditions)\n    normal_conditions = self._transform_to_normal(conditions)[0]\n'
-    '    normal_conditions = pd.Series(normal_conditions, index=conditions.index)\n'
+    '    known = [column for column in self.columns if column in conditions.index]\n'
+    '    normal_conditions = pd.Series(normal_conditions, index=known)\n'
     '    means, covariance, columns = self._get_conditional_distribution(normal_conditions)',
     'samples = np.random.multivariate_normal(means, covariance, size=num_rows)',
     'return pd.DataFrame(samples, columns=columns)',
@@ -472,7 +473,7 @@ SAMPLE_SRC = [
     'samples = self._get_normal_samples(num_rows, conditions)',
     'output = {}',
     'for column_name, univariate in zip(self.columns, self.univariates):\n'
-    '    if conditions and column_name in conditions:\n'
+    '    if conditions is not None and column_name in conditions:\n'
     '        output[column_name] = np.full(num_rows, conditions[column_name])\n'
     '    else:\n        cdf = stats.norm.cdf(samples[column_name])\n'
     '        output[column_name] = univariate.percent_point(cdf)',
@@ -489,10 +490,12 @@ Definition gm_transform_conditions (V : Type) (score : label -> V -> V) (columns
                                         end) columns in
   match U with [] => Err ValueError_no_arrays | _ => Ok U end.
 
-(* pd.Series(self._transform_to_normal(conditions)[0], index=conditions.index) *)
+(* known = [column for column in self.columns if column in conditions.index]
+   pd.Series(self._transform_to_normal(conditions)[0], index=known) *)
 Definition gm_normal_conditions (V : Type) (score : label -> V -> V) (columns : list label)
            (conditions : list (label * V)) : result (list (label * V)) :=
-  bind (gm_transform_conditions V score columns conditions) (relabel V conditions).
+  let known := filter (fun column => has_key V column conditions) columns in
+  bind (gm_transform_conditions V score columns conditions) (relabel V known).
 
 Definition gm_normal_samples (V : Type) sort score cond_params (uncond_params : list V * list (list V)) mvn
            (columns : list label) (num_rows : nat) (conditions : option (list (label * V))) : result (frame V) :=
@@ -511,7 +514,7 @@ Definition gm_normal_samples (V : Type) sort score cond_params (uncond_params : 
         end)
   end.
 
-(* one iteration of the output loop of sample *)
+(* one iteration of the output loop of sample: `conditions is not None and column_name in conditions` *)
 Definition gm_output_column (V : Type) (ppf : label -> V -> V) (Phi : V -> V) (kind : container) (num_rows : nat)
            (conditions : option (list (label * V))) (samples : frame V) (column_name : label) : result (label * list V) :=
   let sampled := bind (frame_col V samples column_name)
@@ -519,16 +522,9 @@ Definition gm_output_column (V : Type) (ppf : label -> V -> V) (Phi : V -> V) (k
   match conditions with
   | None => sampled
   | Some conds =>
-      match kind with
-      | Series => Err ValueError_series_truth          (* `conditions and ...` evaluates bool(Series) *)
-      | Dict =>
-          match conds with
-          | [] => sampled
-          | _ => match lookup column_name conds with
-                 | Some v => Ok (column_name, repeat v num_rows)
-                 | None => sampled
-                 end
-          end
+      match lookup column_name conds with
+      | Some v => Ok (column_name, repeat v num_rows)
+      | None => sampled
       end
   end.
 
@@ -542,7 +538,7 @@ Definition gm_sample (V : Type) sort score ppf Phi cond_params uncond_params mvn
 
 def translate_bookkeeping():
     """_get_normal_samples and sample must consist of exactly the statements the label-bookkeeping model was written for
-    (the hand-written model encodes, among others, the positional relabelling and `if conditions and ...`)."""
+    (the hand-written model encodes, among others, the labelling of the scores by `known` and `if conditions is not None and ...`)."""
     translate_transform_to_normal()
     mod, c, f = _method('_get_normal_samples')
     if [a.arg for a in f.args.args] != ['self', 'num_rows', 'conditions'] or f.decorator_list:
